@@ -118,3 +118,13 @@ Theorem C04_unambiguous_selects_exist : length unambiguous_selects = 10%nat /\ I
 Proof. split; [vm_compute; reflexivity|vm_compute; tauto]. Qed.
 Print Assumptions C04_unambiguous_selects_exist.
 
+
+(* the same, under the hypothesis the code itself establishes: every name on the sheet (and the root's) has passed is_xml_tag *)
+Require Import PX.Model.Names PX.Proofs.ConvertChecked.
+Theorem C04_rows_to_parsed_instance_checked : forall rows ts root_name,
+  Nest rows ts -> Forall (fun n => is_xml_tag n = true) (enames (survey_tree root_name ts)) ->
+  parse_rows rows = POk ts /\
+  exists x, parse (instance_doc root_name ts) = Some x /\
+            xshape x = Sh s_instance [] [ishape (inst false (survey_tree root_name ts))].
+Proof. exact rows_to_parsed_instance_checked. Qed.
+Print Assumptions C04_rows_to_parsed_instance_checked.
